@@ -30,6 +30,18 @@ for try in 1 2 3; do
   out=$(go test -count=1 ./... 2>&1); if ! echo "$out" | grep -q '^FAIL\|^--- FAIL'; then suite=pass; break; fi
   fails=$(echo "$out" | grep '^--- FAIL' | sort -u | tr '\n' ' ')
 done
+if [ $suite = fail ]; then
+  # the suite's wall-clock tests flake under machine load: a test that failed in all three full runs counts as
+  # passing only if it passes when run on its own (one package, -p 1) with the change still applied
+  suite=pass-after-isolated-rerun
+  for t in $(echo "$out" | grep '^--- FAIL' | sed 's/^--- FAIL: \([A-Za-z0-9_]*\).*/\1/' | sort -u); do
+    ok=no
+    for try in 1 2 3 4 5; do
+      if go test -p 1 -count=1 -run "^$t\$" ./... >/dev/null 2>&1; then ok=yes; break; fi
+    done
+    [ $ok = yes ] || suite=fail
+  done
+fi
 mkdir -p $(dirname $place)
 demos=$(ls $mdir/*_test.go 2>/dev/null)
 cp $mdir/demo_test.go $place 2>/dev/null || cp $demos $(dirname $place)/
